@@ -118,6 +118,7 @@ def correspond(ctx):
     rng = ctx.rng
     res = Result()
     lines, impl = [], []
+    seq_start = []
     d0 = scratch()
     try:
         for i in range(ctx.pick(300, 8000)):
@@ -125,8 +126,10 @@ def correspond(ctx):
             path = os.path.join(d0, f"d{i}")
             ops = gen_ops(rng, rng.randint(3, 50), lifecycle=(kind == "pickled"))
             closed = False
+            seq_start.append([len(lines), kind, None, ops])
             if kind == "pickled" and rng.random() < 0.3:
                 src = {rng.choice(KEYS): rb(rng, rng.randint(0, 4)) for _ in range(rng.randint(0, 4))}
+                seq_start[-1][2] = dict(src)
                 d = PickledDict.from_dict(src, path)
                 lines.append("pdict fromdict " + (",".join(f"{hx(k)}:{hx(v)}" for k, v in src.items()) if src else "."))
                 impl.append("ok")
@@ -162,6 +165,11 @@ def correspond(ctx):
         shutil.rmtree(d0, ignore_errors=True)
     model = ctx.driver.batch(lines)
     compare(res, lines, impl, model)
+    del _DISAGREE[:]
+    for k, (st, kind, src, ops) in enumerate(seq_start):
+        en = seq_start[k + 1][0] if k + 1 < len(seq_start) else len(lines)
+        if any(a != b for a, b in zip(impl[st:en], model[st:en])):
+            _DISAGREE.append((kind, src, ops))
     if res.disagreements:
         idx = next(i for i, (a, b) in enumerate(zip(impl, model)) if a != b)
         start = max(j for j in range(idx + 1) if lines[j].startswith(("pdict create", "pdict fromdict")))
@@ -174,26 +182,22 @@ def correspond(ctx):
     return res
 
 
-def oracle(ctx, res):
+_DISAGREE = []      # (kind, initial dict or None, ops) of histories on which model and implementation disagreed
+
+
+def check_history(res, viol, d0, tag, kind, src0, ops, probe):
+    """one history on the real dictionary against a Python dict.  probe=True reads the whole dictionary after every step;
+    probe=False observes ONLY what the history itself reads (reading every key refreshes caches a stale memo hides behind)."""
     from data_persistence.persistent_dict import PickledDict, DBMDict
-    rng = ctx.rng
-    d0 = scratch()
-
-    def viol(sig, what, inp):
-        if not any(v["signature"] == sig for v in res.violations):
-            res.violations.append({"signature": sig, "what": what, "input": inp})
-
-    try:
-        for i in range(ctx.pick(200, 5000)):
-            kind = "pickled" if i % 3 else "dbm"
+    if True:
+        if True:
             cls = PickledDict if kind == "pickled" else DBMDict
-            path = os.path.join(d0, f"o{i}")
-            ops = gen_ops(rng, rng.randint(3, 50), lifecycle=(kind == "pickled"))
+            path = os.path.join(d0, tag)
             hist = []
-            inp = {"class": cls.__name__, "ops": hist}
+            inp = {"class": cls.__name__, "ops": hist, "full_read_after_every_step": probe}
             ref = {}
-            if kind == "pickled" and rng.random() < 0.3:
-                src = {rng.choice(KEYS): rb(rng, 2) for _ in range(3)}
+            if src0 is not None:
+                src = dict(src0)
                 ref = dict(src)
                 d = cls.from_dict(src, path); hist.append("from_dict " + repr(ref))
                 src.clear(); src[b"new"] = b"x"
@@ -269,7 +273,7 @@ def oracle(ctx, res):
                 except Exception as e:
                     viol("a valid operation raised", f"{op_line(op)}: {type(e).__name__}: {e}", dict(inp))
                     break
-                if not closed:
+                if not closed and probe:
                     try:
                         cur = dict((k, bytes(d[k])) for k in d)
                         if cur != ref or len(d) != len(ref):
@@ -293,6 +297,25 @@ def oracle(ctx, res):
                     os.unlink(os.path.join(d0, fn))
                 except OSError:
                     pass
+
+
+def oracle(ctx, res):
+    from data_persistence.persistent_dict import PickledDict, DBMDict
+    rng = ctx.rng
+    d0 = scratch()
+
+    def viol(sig, what, inp):
+        if not any(v["signature"] == sig for v in res.violations):
+            res.violations.append({"signature": sig, "what": what, "input": inp})
+
+    try:
+        for i in range(ctx.pick(200, 5000)):
+            kind = "pickled" if i % 3 else "dbm"
+            ops = gen_ops(rng, rng.randint(3, 50), lifecycle=(kind == "pickled"))
+            src = None
+            if kind == "pickled" and rng.random() < 0.3:
+                src = {rng.choice(KEYS): rb(rng, 2) for _ in range(3)}
+            check_history(res, viol, d0, f"o{i}", kind, src, ops, probe=(i % 2 == 0))
         # creation / opening contracts
         for cls in (PickledDict, DBMDict):
             p = os.path.join(d0, "exists_" + cls.__name__)
@@ -325,6 +348,20 @@ def _do(d, op):
 
 def search(ctx, broken, res0):
     res = Result()
+
+    def viol(sig, what, inp):
+        if not any(v["signature"] == sig for v in res.violations):
+            res.violations.append({"signature": sig, "what": what, "input": inp})
+    # first: the very histories on which the model and the implementation disagreed, against a Python dict
+    d0 = scratch()
+    try:
+        for n, (kind, src, ops) in enumerate(_DISAGREE[:40]):
+            for probe in (False, True):
+                check_history(res, viol, d0, f"r{n}{int(probe)}", kind, src, ops, probe)
+    finally:
+        shutil.rmtree(d0, ignore_errors=True)
+    if res.violations:
+        return res
     ctx.tier = "thorough"
     return oracle(ctx, res)
 
